@@ -407,6 +407,69 @@ class Resolver:
                                 vals[x.id] = n.value  # type: ignore[union-attr]
         self.vals = {k: v for k, v in vals.items() if counts.get(k) == 1 and k not in params
                      and not any(isinstance(x, (ast.Await, ast.Yield, ast.YieldFrom)) for x in ast.walk(v))}
+        self._grow_dicts()
+
+    def _grow_dicts(self) -> None:
+        """``d = {A: a}`` followed, in the same block and unconditionally, by ``d[B] = b`` / ``d.update({C: c})`` / ``d.update([(D, d_)])`` / ``d.update(e=e_)``
+        is the display ``{A: a, B: b, C: c, D: d_, 'e': e_}``: one reading for a mapping built in one piece or in several."""
+        if isinstance(self.func.node, ast.Lambda):
+            return
+
+        def blocks(stmts):
+            yield stmts
+            for st in stmts:
+                for fld in ('body', 'orelse', 'finalbody'):
+                    sub = getattr(st, fld, None)
+                    if isinstance(sub, list) and sub and isinstance(sub[0], ast.stmt) and not isinstance(st, (ast.FunctionDef, ast.AsyncFunctionDef, ast.ClassDef)):
+                        yield from blocks(sub)
+                for h in getattr(st, 'handlers', []) or []:
+                    yield from blocks(h.body)
+        for block in blocks(self.func.node.body):
+            for i, st in enumerate(block):
+                if not (isinstance(st, (ast.Assign, ast.AnnAssign)) and st.value is not None):
+                    continue
+                tgt = st.targets[0] if isinstance(st, ast.Assign) and len(st.targets) == 1 else (st.target if isinstance(st, ast.AnnAssign) else None)
+                if not (isinstance(tgt, ast.Name) and tgt.id in self.vals and self.vals[tgt.id] is st.value and isinstance(strip_cast(st.value), ast.Dict)):
+                    continue
+                name = tgt.id
+                keys, values = list(strip_cast(st.value).keys), list(strip_cast(st.value).values)
+                grown = False
+                for nx in block[i + 1:]:
+                    add = None
+                    if isinstance(nx, ast.Assign) and len(nx.targets) == 1 and isinstance(nx.targets[0], ast.Subscript) and isinstance(nx.targets[0].value, ast.Name) \
+                            and nx.targets[0].value.id == name:
+                        add = [(nx.targets[0].slice, nx.value)]
+                    elif isinstance(nx, ast.Expr) and isinstance(nx.value, ast.Call) and isinstance(nx.value.func, ast.Attribute) and nx.value.func.attr == 'update' \
+                            and isinstance(nx.value.func.value, ast.Name) and nx.value.func.value.id == name and len(nx.value.args) <= 1 \
+                            and all(k.arg is not None for k in nx.value.keywords):
+                        add = []
+                        if nx.value.args:
+                            a0 = strip_cast(nx.value.args[0])
+                            if isinstance(a0, ast.Dict) and all(k is not None for k in a0.keys):
+                                add += list(zip(a0.keys, a0.values))
+                            elif isinstance(a0, (ast.List, ast.Tuple)) and all(isinstance(e, (ast.Tuple, ast.List)) and len(e.elts) == 2 for e in a0.elts):
+                                add += [(e.elts[0], e.elts[1]) for e in a0.elts]
+                            else:
+                                add = None
+                        if add is not None:
+                            add += [(ast.Constant(value=k.arg), k.value) for k in nx.value.keywords]
+                    if add is None:
+                        # anything else that mentions the name ends the construction phase (it may be read, passed on, or changed in a way not followed here)
+                        if any(isinstance(x, ast.Name) and x.id == name for x in ast.walk(nx)):
+                            break
+                        continue
+                    if any(isinstance(x, ast.Name) and x.id == name for k_, v_ in add for x in list(ast.walk(k_)) + list(ast.walk(v_))):
+                        break
+                    for k_, v_ in add:
+                        same = [j for j, k0 in enumerate(keys) if k0 is not None and norm(k0) == norm(k_)]
+                        if same:
+                            values[same[0]] = v_
+                        else:
+                            keys.append(k_)
+                            values.append(v_)
+                    grown = True
+                if grown:
+                    self.vals[name] = ast.copy_location(ast.Dict(keys=keys, values=values), st.value)
 
     def expand(self, e: Optional[ast.AST], depth: int = 4) -> Optional[ast.AST]:
         if e is None or depth == 0:
@@ -650,6 +713,27 @@ def built_sequence(func: FuncInfo) -> Optional[Built]:
         return None
     if comp(v) is not None:
         return comp(v)
+    # ``(first,) + tuple(<the rest>)``: concatenation of displays / comprehensions is the display with the last part starred
+    parts: List[ast.expr] = []
+
+    def flat(x):
+        x = unwrap(x)
+        if isinstance(x, ast.BinOp) and isinstance(x.op, ast.Add):
+            flat(x.left)
+            flat(x.right)
+        else:
+            parts.append(x)
+    if isinstance(v, ast.BinOp) and isinstance(v.op, ast.Add):
+        flat(v)
+        elts: List[ast.expr] = []
+        for i, p_ in enumerate(parts):
+            if isinstance(p_, (ast.Tuple, ast.List)) and not any(isinstance(e, ast.Starred) for e in p_.elts):
+                elts.extend(p_.elts)
+            elif i == len(parts) - 1 and comp(p_) is not None:
+                elts.append(ast.Starred(value=p_, ctx=ast.Load()))
+            else:
+                return None
+        v = ast.Tuple(elts=elts, ctx=ast.Load())
     if isinstance(v, (ast.Tuple, ast.List)):
         initial: List[ast.expr] = []
         for i, e in enumerate(v.elts):
